@@ -268,7 +268,31 @@ func genHist(rng *rand.Rand, nops int) hist {
 				sort.Slice(out, func(i, j int) bool { return out[i].P < out[j].P })
 				return out
 			}
-			switch rng.IntN(10) {
+			// announcements of a family that do not mention a prefix the UPDATE withdraws
+			annBeside := func(n, fam, universe int, wd []nl) []nl {
+				var out []nl
+				for _, e := range pickNL(n, fam, universe, false) {
+					dup := false
+					for _, w := range wd {
+						dup = dup || w.P == e.P
+					}
+					if !dup {
+						out = append(out, e)
+					}
+				}
+				return out
+			}
+			switch rng.IntN(12) {
+			case 10:
+				// MP_UNREACH_NLRI and MP_REACH_NLRI in one UPDATE: IPv6 withdrawals next to IPv6 announcements
+				o.Wd6 = pickNL(1+rng.IntN(2), 6, len(h.P6), true)
+				o.Ann6 = annBeside(1+rng.IntN(2), 6, len(h.P6), o.Wd6)
+			case 11:
+				// everything at once: withdrawn routes, MP_UNREACH_NLRI, MP_REACH_NLRI and NLRI
+				o.Wd4 = pickNL(1, 4, len(h.P4), true)
+				o.Wd6 = pickNL(1+rng.IntN(2), 6, len(h.P6), true)
+				o.Ann4 = annBeside(1+rng.IntN(2), 4, len(h.P4), o.Wd4)
+				o.Ann6 = annBeside(1+rng.IntN(2), 6, len(h.P6), o.Wd6)
 			case 0, 1, 2, 3:
 				o.Ann4 = pickNL(1+rng.IntN(3), 4, len(h.P4), false)
 			case 4, 5:
@@ -581,6 +605,7 @@ type rig struct {
 type stats struct {
 	msgs, checks, rm, addpathMulti, reconnects, peerdowns, observers, twoPeersSamePrefix int
 	ownASAnnounced                                                                       int // paths announced whose AS_PATH holds the monitored router's own AS
+	mpBoth, mpBothWdHit                                                                  int // UPDATEs with MP_REACH_NLRI and MP_UNREACH_NLRI; routes such an MP_UNREACH_NLRI really removed
 }
 
 func runHist(h hist, st *stats, viol func(clause string, f map[string]string, detail string)) {
@@ -766,7 +791,13 @@ func runHist(h hist, st *stats, viol func(clause string, f map[string]string, de
 					if fam == 6 {
 						universe = h.P6
 					}
+					if fam == 6 && len(ann) > 0 && len(wd) > 0 {
+						st.mpBoth++
+					}
 					for _, e := range wd {
+						if _, ok := t[key{src, pfxString(universe[e.P], fam), e.ID}]; ok && fam == 6 && len(ann) > 0 {
+							st.mpBothWdHit++
+						}
 						delete(t, key{src, pfxString(universe[e.P], fam), e.ID})
 					}
 					for _, e := range ann {
@@ -948,7 +979,7 @@ func compare(want, got table, viol func(clause, detail string)) {
 func main() {
 	bmprig.Quiet()
 	vf.Main("C28", "exploration", func(r *vf.Run) {
-		r.Rule("PRNG histories over 2 routers x 3 peers (IPv4/IPv6 peer addresses, eBGP/iBGP, 2- and 4-octet AS, A flag, add-path per OPEN pair, optionally the same address in both VRFs) x 2 VRFs (peer distinguisher 0 and 65000:100), 7 IPv4 and 5 IPv6 prefixes (parent/child, siblings, default, host routes): connect, initiation, peer up, route monitoring (IPv4 NLRI, MP_REACH/MP_UNREACH IPv6, withdrawals, mixed UPDATEs; each announcement with a unique next hop and community; AS_PATH = neighbour AS on eBGP plus 0-2 further hops, one in five of them an AS of the monitored topology itself: the monitored router's own AS, the other router's, the announcing or another peer's), statistics, observer registration, peer down, termination, connection loss (EOF/reset), reconnect; each peer uses one view (pre- or post-policy), 1/8 of the histories mix views and are judged only for panics, leftovers of down peers and the after-loss clauses; half of the histories go through the connection, half through VerifProcessMsg. distinct_nontrivial = histories with a peer down while it had routes, a reconnect, an observer registered while routes existed, two peers announcing one prefix and (non-mixed) an add-path peer holding two paths of one prefix")
+		r.Rule("PRNG histories over 2 routers x 3 peers (IPv4/IPv6 peer addresses, eBGP/iBGP, 2- and 4-octet AS, A flag, add-path per OPEN pair, optionally the same address in both VRFs) x 2 VRFs (peer distinguisher 0 and 65000:100), 7 IPv4 and 5 IPv6 prefixes (parent/child, siblings, default, host routes): connect, initiation, peer up, route monitoring (IPv4 NLRI, MP_REACH/MP_UNREACH IPv6, withdrawals, mixed UPDATEs: IPv4 withdrawals + MP_UNREACH + IPv4 NLRI, MP_UNREACH + MP_REACH of different IPv6 prefixes in one UPDATE (one UPDATE in twelve), all four parts at once (one in twelve); each announcement with a unique next hop and community; AS_PATH = neighbour AS on eBGP plus 0-2 further hops, one in five of them an AS of the monitored topology itself: the monitored router's own AS, the other router's, the announcing or another peer's), statistics, observer registration, peer down, termination, connection loss (EOF/reset), reconnect; each peer uses one view (pre- or post-policy), 1/8 of the histories mix views and are judged only for panics, leftovers of down peers and the after-loss clauses; half of the histories go through the connection, half through VerifProcessMsg. distinct_nontrivial = histories with a peer down while it had routes, a reconnect, an observer registered while routes existed, two peers announcing one prefix and (non-mixed) an add-path peer holding two paths of one prefix")
 		r.Assume("eBGP paths are not empty (such paths are hidden by the Adj-RIB-In; the statement does not speak about them); the receiver itself has no AS, so no AS_PATH is a loop for it: a path that contains the monitored router's own AS is an announced route like any other",
 			"LOCAL_PREF is compared only when announced (bio-rd defaults it to 100 on eBGP sessions)",
 			"one UPDATE mentions a prefix at most once")
@@ -981,6 +1012,8 @@ func main() {
 			r.Count("observers", st.observers)
 			r.Count("addpath_second_path_events", st.addpathMulti)
 			r.Count("paths_announced_with_the_monitored_routers_own_as", st.ownASAnnounced)
+			r.Count("updates_with_mp_reach_and_mp_unreach", st.mpBoth)
+			r.Count("routes_withdrawn_by_mp_unreach_next_to_mp_reach", st.mpBothWdHit)
 			if h.Mixed {
 				r.Count("mixed_view_histories", 1)
 			}
@@ -997,5 +1030,6 @@ func main() {
 		r.Require("route_monitoring_messages", 10000)
 		r.Require("addpath_second_path_events", 100)
 		r.Require("paths_announced_with_the_monitored_routers_own_as", 200)
+		r.Require("routes_withdrawn_by_mp_unreach_next_to_mp_reach", 200)
 	})
 }
